@@ -201,6 +201,15 @@ def step (d : DState) (line : String) : DState × String :=
   | ["fin"] =>
     ({ d with acc := [] }, s!"out {toHexD d.acc} {if d.conn.closed then "closed" else "open"}")
   | ["conn"] => ({ d with conn := Conn.init, acc := [] }, "ok")
+  | ["obs", hx] =>
+    -- a second connection: the bytes, then half-close
+    match fromHex hx with
+    | some b =>
+      let (c1, s1, out1) := feed memOps d.limit d.now Conn.init d.store b
+      let (_, s2, out2) := eof memOps d.now c1 s1
+      ({ d with store := s2 }, s!"obs {toHexD (out1 ++ out2)}")
+    | none => (d, "bad-op")
+  | ["blast", _, _] => (d, "ok")   -- abortive end: which prefix was executed is the implementation's choice (oracle-only)
   | ["dec", hx] =>
     match fromHex hx with
     | some b =>
